@@ -2,7 +2,7 @@ import ExaModel.Model.Session
 import ExaModel.Driver.Util
 /- Line protocol for M-Session.  One output line per input line.
 
-   session init <passive> <maxAttempts> <hold0> <graceful> <ribNonEmpty>   -> ok
+   session init <passive> <maxAttempts> <hold0> <graceful> <ribNonEmpty> <changes> <forward>   -> ok
    session ev <event ...>          -> the step's outputs joined by ';' ('-' if none)
    session state                   -> fsm pc conn restart teardown (debug)
    session errorclass <cause ...> <STATE>   -> c/s,c/s,... ('-' = no NOTIFICATION allowed)
@@ -67,6 +67,7 @@ def event? : List String → Option Event
   | ["stop"] => some .stop
   | ["queueRefresh"] => some .queueRefresh
   | ["announce"] => some .announce
+  | ["apiDies"] => some .apiDies
   | _ => none
 
 def showKind : Kind → String
@@ -106,11 +107,11 @@ def showPairs (l : List (Nat × Nat)) : String := joinWith "," (l.map fun p => s
 def sessionLine (s : State) (ws : List String) : State × String :=
   let bad := (s, "bad-op")
   match ws with
-  | ["init", p, a, h, g, r] =>
-    match bool? p, a.toNat?, bool? h, bool? g, bool? r with
-    | some p, some a, some h, some g, some r =>
-      (Exa.Session.init { passive := p, maxAttempts := a, hold0 := h, graceful := g } r, "ok")
-    | _, _, _, _, _ => bad
+  | ["init", p, a, h, g, r, c, f] =>
+    match bool? p, a.toNat?, bool? h, bool? g, bool? r, bool? c, bool? f with
+    | some p, some a, some h, some g, some r, some c, some f =>
+      (Exa.Session.init { passive := p, maxAttempts := a, hold0 := h, graceful := g, changes := c, forward := f } r, "ok")
+    | _, _, _, _, _, _, _ => bad
   | "ev" :: rest =>
     match event? rest with
     | some e => let r := step s e; (r.1, joinWith ";" ((r.2.filter visible).map showOut))
